@@ -1,6 +1,8 @@
 package val
 
-// C17: Compare agrees with the mathematical order for every integer width.
+import "math"
+
+// C17: Compare / Equal / CompareVals agree with what the values denote.
 
 func sgn(c int) int {
 	if c < 0 {
@@ -12,20 +14,100 @@ func sgn(c int) int {
 	return 0
 }
 
-func H_C17_order_uint8() {
-	a, b := vpUint8(), vpUint8()
-	c := UInt8(a).Compare(UInt8(b))
+func H_C17_order_decimal64() {
+	a, b := vpFloat64(), vpFloat64()
+	// finite operands (NaN has no order; stated in DESIGN)
+	vpAssume(!math.IsNaN(a) && !math.IsNaN(b))
+	c := Decimal64(a).Compare(Decimal64(b))
 	vpAssert((c < 0) == (a < b), "lt")
 	vpAssert((c == 0) == (a == b), "eq")
 	vpAssert((c > 0) == (a > b), "gt")
 	vpCover("reached")
 }
 
-func H_C17_order_int32() {
-	a, b := vpInt32(), vpInt32()
-	c := Int32(a).Compare(Int32(b))
+func H_C17_order_bool() {
+	a, b := vpBool(), vpBool()
+	c := Bool(a).Compare(Bool(b))
+	vpAssert((c == 0) == (a == b), "eq")
+	vpAssert((c < 0) == (!a && b), "false<true")
+	vpAssert((c > 0) == (a && !b), "true>false")
+	vpAssert(Equal(Bool(a), Bool(b)) == (a == b), "Equal")
+	vpCover("reached")
+}
+
+func strBound() int {
+	if vpTier() > 0 {
+		return 4
+	}
+	return 2
+}
+
+func H_C17_order_string() {
+	a, b := vpString(strBound()), vpString(strBound())
+	c := String(a).Compare(String(b))
 	vpAssert((c < 0) == (a < b), "lt")
 	vpAssert((c == 0) == (a == b), "eq")
 	vpAssert((c > 0) == (a > b), "gt")
+	vpAssert(Equal(String(a), String(b)) == (a == b), "Equal")
+	vpCover("reached")
+}
+
+func H_C17_order_identref() {
+	a, b := vpString(strBound()), vpString(strBound())
+	x, y := IdentRef{Label: a}, IdentRef{Label: b}
+	c := x.Compare(y)
+	vpAssert((c < 0) == (a < b), "lt")
+	vpAssert((c == 0) == (a == b), "eq")
+	vpAssert(Equal(x, y) == (a == b), "Equal")
+	vpCover("reached")
+}
+
+func H_C17_order_enum() {
+	a, b := vpInt32(), vpInt32() // YANG enum values are int32
+	x, y := Enum{Id: int(a), Label: "x"}, Enum{Id: int(b), Label: "y"}
+	c := x.Compare(y)
+	vpAssert((c < 0) == (a < b), "lt")
+	vpAssert((c == 0) == (a == b), "eq")
+	vpAssert((c > 0) == (a > b), "gt")
+	vpCover("reached")
+}
+
+func H_C17_order_binary() {
+	a, b := vpString(strBound()), vpString(strBound())
+	c := Binary([]byte(a)).Compare(Binary([]byte(b)))
+	vpAssert((c < 0) == (a < b), "lt")
+	vpAssert((c == 0) == (a == b), "eq")
+	vpCover("reached")
+}
+
+// CompareVals orders key tuples lexicographically (mixed key types).
+func H_C17_compareVals_lex() {
+	a0, b0 := vpUint8(), vpUint8()
+	a1, b1 := vpInt64(), vpInt64()
+	c := sgn(CompareVals([]Value{UInt8(a0), Int64(a1)}, []Value{UInt8(b0), Int64(b1)}))
+	want := 0
+	switch {
+	case a0 < b0:
+		want = -1
+	case a0 > b0:
+		want = 1
+	case a1 < b1:
+		want = -1
+	case a1 > b1:
+		want = 1
+	}
+	vpAssert(c == want, "lexicographic")
+	eq := EqualVals([]Value{UInt8(a0), Int64(a1)}, []Value{UInt8(b0), Int64(b1)})
+	vpAssert(eq == (a0 == b0 && a1 == b1), "EqualVals")
+	vpCover("reached")
+}
+
+// Equal on list values is element-wise equality.
+func H_C17_equal_lists() {
+	a0, a1, b0, b1 := vpInt32(), vpInt32(), vpInt32(), vpInt32()
+	eq := Equal(Int32List([]int32{a0, a1}), Int32List([]int32{b0, b1}))
+	vpAssert(eq == (a0 == b0 && a1 == b1), "Int32List Equal")
+	vpAssert(!Equal(Int32List([]int32{a0}), Int32List([]int32{a0, a1})), "different length")
+	vpAssert(!Equal(Int32(a0), Int64(int64(a0))), "different format never equal")
 	vpCover("reached")
 }
